@@ -587,6 +587,26 @@ def features_with_grammar(f, grammar) -> List[str]:
                     atoms(x)
 
         atoms(f)
+
+        # ... or a universal quantifier over a type that can occur inside another variable
+        # mentioned by an SMT atom (whatever the body of the universal formula is): the
+        # string Z3 picks for that variable is parsed into a new subtree against which the
+        # universal quantifier is not instantiated
+        foralls: List[Tuple[str, bool]] = []
+
+        def collect_foralls(g):
+            if isinstance(g, list) and g:
+                if g[0] == "forall" and len(g) == 6:
+                    foralls.append((g[2], g[3] is not None))
+                for x in g:
+                    collect_foralls(x)
+
+        collect_foralls(f)
+        smt_vars = set().union(*atom_vars) if atom_vars else set()
+        for a, has_mexpr in foralls:
+            for j in smt_vars:
+                if j != a and j != "start" and (types[a] in r.get(types[j], ()) or (types[a] == types[j] and has_mexpr)):
+                    out.add("forall_over_type_inside_smt_variable")
         for i, va in enumerate(atom_vars):
             for j, vb in enumerate(atom_vars):
                 if i != j and any(
